@@ -222,6 +222,18 @@ def coq_spatial(case, obs):
     return '(%s, %s, %s, %s)' % (L(obs['S']), coq_list(L(c) for c in cols), q(case['ds']), coq_list(L(obs[c]) for c in 'XYZT'))
 
 
+def oracle_spatial_exact(case, obs):
+    # the exact stream: leg lengths and the step are dyadic, so the number of points is known exactly: the first fix and one point per k = 1 .. floor(L / ds)
+    r = oracle_spatial(case, obs)
+    if r or 'exc' in obs:
+        return r
+    L = sum(F(math.hypot(case['X'][i] - case['X'][i - 1], case['Y'][i] - case['Y'][i - 1])) for i in range(1, len(case['X'])))
+    want = 1 + math.floor(L / F(case['ds']))
+    if obs['n'] != want:
+        return '%d observations returned, the first fix and the points at abscissas k * %r, k = 1 .. %d, of a polyline of length %r make %d' % (obs['n'], case['ds'], want - 1, float(L), want)
+    return None
+
+
 def oracle_spatial(case, obs):
     if 'exc' in obs:
         return 'spatial resample raised %s (X=%r, Y=%r, ds=%r)' % (obs['exc'], case['X'], case['Y'], case['ds'])
@@ -278,7 +290,7 @@ S_SPATIAL = Stream(
 Definition ok (c : list Q * list (list Q) * Q * list (list Q)) : bool :=
   let '(Sa, cols, ds, out) := c in
   forallb (fun k => match resample_spatial Sa (nth k cols []) ds with Some o => cmp (Nat.eqb k 3) o (nth k out []) | None => false end) (seq 0 4).''',
-    generate=gen_spatial, run_impl=run_spatial, coq_case=coq_spatial, oracle=oracle_spatial, shrink=shrink_s,
+    generate=gen_spatial, run_impl=run_spatial, coq_case=coq_spatial, oracle=oracle_spatial_exact, shrink=shrink_s,
     nontrivial=lambda c, o: o.get('n', 0) >= 2, klass=lambda c, o: 'n=%d' % len(c['X']))
 
 
